@@ -102,7 +102,7 @@ def run_lean_lemmas(prop):
     return out
 
 
-RTC_PROPS = {"C01", "C02", "C04", "C06", "C07", "C09", "C12", "C13", "C14", "C16", "C17", "C20"}
+RTC_PROPS = {"C01", "C02", "C04", "C06", "C07", "C08", "C09", "C12", "C13", "C14", "C16", "C17", "C20"}
 
 
 def run_rtc(prop, repo, tier):
